@@ -227,6 +227,65 @@ func seamConn() *staged {
 	return s
 }
 
+// rewriteCalls replaces calls of pkg.name by calls of to[name] inside root and reports
+// which names were found.
+func rewriteCalls(root ast.Node, pkg string, to map[string]string) map[string]bool {
+	found := map[string]bool{}
+	astutil.Apply(root, func(c *astutil.Cursor) bool {
+		if call, ok := c.Node().(*ast.CallExpr); ok {
+			if sel, ok := call.Fun.(*ast.SelectorExpr); ok {
+				if id, ok := sel.X.(*ast.Ident); ok && id.Name == pkg {
+					if t, ok := to[sel.Sel.Name]; ok {
+						call.Fun = ast.NewIdent(t)
+						found[sel.Sel.Name] = true
+					}
+				}
+			}
+		}
+		return true
+	}, nil)
+	return found
+}
+
+// usesPkg reports whether the identifier pkg is still selected from in f.
+func usesPkg(f *ast.File, pkg string) bool {
+	used := false
+	ast.Inspect(f, func(n ast.Node) bool {
+		if sel, ok := n.(*ast.SelectorExpr); ok {
+			if id, ok := sel.X.(*ast.Ident); ok && id.Name == pkg {
+				used = true
+			}
+		}
+		return true
+	})
+	return used
+}
+
+// seamSysctl: in internal/system/interface_linux.go every os.ReadFile / os.WriteFile goes
+// through verifReadFile / verifWriteFile (default: the originals), so that the real
+// sysctl getters and setters run over a scripted /proc/sys tree. A version of the file
+// that reaches the file system another way simply bypasses the seam; the harness
+// notices (no access recorded) and says so.
+func seamSysctl() *staged {
+	s := load("internal/system/interface_linux.go")
+	rewriteCalls(s.file, "os", map[string]string{"ReadFile": "verifReadFile", "WriteFile": "verifWriteFile"})
+	if !usesPkg(s.file, "os") {
+		astutil.DeleteImport(s.fset, s.file, "os")
+	}
+	return s
+}
+
+// seamRtnl: inside rtnlExecute the call rtnetlink.Dial goes through verifRtnlDial
+// (default: the original), so that the real request/close/error plumbing of the only
+// function that talks to the netlink socket runs over scripted answers.
+func seamRtnl(s *staged) {
+	fd := findFunc(s.file, "", "rtnlExecute")
+	if fd == nil || fd.Body == nil {
+		return // the harness reports the bypassed seam
+	}
+	rewriteCalls(fd.Body, "rtnetlink", map[string]string{"Dial": "verifRtnlDial"})
+}
+
 func main() {
 	flag.Parse()
 	if *out == "" || *frag == "" {
@@ -237,6 +296,8 @@ func main() {
 	}
 
 	addr := seamAddresser()
+	seamRtnl(addr)
+	seamSysctl().write()
 	dialer := load("internal/system/dialer.go")
 	seamDial(dialer)
 	seamConn().write()
